@@ -836,6 +836,11 @@ func adj(inTime time.Time, cv *v1proto.ColumnValue, outTime time.Time) *v1proto.
 		return cv
 	}
 	out := proto.Clone(cv).(*v1proto.ColumnValue)
+	if cv.Value != nil && out.Value != nil {
+		// proto.Clone leaves out a REAL that compares equal to zero, and
+		// with it the sign of -0.0
+		out.Value.Real = cv.Value.Real
+	}
 	out.UpdateOffset = durationpb.New(UpdateTime(inTime, cv).Sub(outTime))
 	return out
 }
